@@ -147,3 +147,41 @@ package sstables
 //@     invariant old(qPos(m.pq)) <= qPos(m.pq)
 //@     invariant forall j :: old(qPos(m.pq)) <= j && j < qPos(m.pq) ==> qErr(m.pq, j) == nil
 //@     invariant m.pq == old(m.pq)
+
+// ---------------------------------------------------------------------------------------------------
+// C15: the stream writer accepts strictly ascending keys only; a rejected or failed write leaves the writer's
+// observable in-memory state (last key, MinKey, counters, bloom filter) as it was; an accepted write updates it.
+
+//@ func (*SSTableStreamWriter).WriteNext
+//@   props C15 C11
+//@   replay stream_writer_writenext
+//@   requires writer.opts != nil && writer.opts.keyComparator != nil
+//@   requires writer.dataWriter != nil && writer.indexWriter != nil
+//@   requires writer.opts.enableBloomFilter ==> writer.bloomFilter != nil
+//@   requires !isnil(writer.lastKey) ==> writer.metaData != nil && !isnil(writer.metaData.MinKey)
+//@   requires writer.metaData != nil ==> writer.metaData.NumRecords < 9223372036854775807 && writer.metaData.NullValues <= writer.metaData.NumRecords
+//@   requires !isnil(writer.lastKey) ==> arr(writer.lastKey) != arr(key) && arr(writer.metaData.MinKey) != arr(key) &&
+//@            arr(writer.lastKey) != arr(writer.metaData.MinKey)
+//@   ensures [rejects-non-ascending] old(!isnil(writer.lastKey)) &&
+//@           cmpv(writer.opts.keyComparator, old(content(writer.lastKey)), old(content(key))) >= 0 ==> r0 != nil
+//@   ensures [rejected-touches-no-file] old(!isnil(writer.lastKey)) &&
+//@           cmpv(writer.opts.keyComparator, old(content(writer.lastKey)), old(content(key))) >= 0 ==>
+//@           wrCount(writer.dataWriter) == old(wrCount(writer.dataWriter)) && pwCount(writer.indexWriter) == old(pwCount(writer.indexWriter))
+//@   ensures [failure-keeps-last-key] r0 != nil ==> isnil(writer.lastKey) == old(isnil(writer.lastKey)) &&
+//@           content(writer.lastKey) == old(content(writer.lastKey))
+//@   ensures [failure-keeps-metadata] r0 != nil && old(writer.metaData) != nil ==> writer.metaData == old(writer.metaData) &&
+//@           writer.metaData.NumRecords == old(writer.metaData.NumRecords) && writer.metaData.NullValues == old(writer.metaData.NullValues) &&
+//@           isnil(writer.metaData.MinKey) == old(isnil(writer.metaData.MinKey)) && content(writer.metaData.MinKey) == old(content(writer.metaData.MinKey))
+//@   ensures [failure-keeps-bloom] r0 != nil && writer.opts.enableBloomFilter ==> bfAdds(writer.bloomFilter) == old(bfAdds(writer.bloomFilter))
+//@   ensures [data-error-reported] wrCount(writer.dataWriter) > old(wrCount(writer.dataWriter)) && wrErr(writer.dataWriter, old(wrCount(writer.dataWriter))) != nil ==> r0 != nil
+//@   ensures [index-error-reported] pwCount(writer.indexWriter) > old(pwCount(writer.indexWriter)) && pwErr(writer.indexWriter, old(pwCount(writer.indexWriter))) != nil ==> r0 != nil
+//@   ensures [success-appends-both] r0 == nil ==> wrCount(writer.dataWriter) == old(wrCount(writer.dataWriter)) + 1 &&
+//@           pwCount(writer.indexWriter) == old(pwCount(writer.indexWriter)) + 1
+//@   ensures [success-last-key] r0 == nil ==> !isnil(writer.lastKey) && content(writer.lastKey) == old(content(key))
+//@   ensures [success-counts] r0 == nil ==> writer.metaData.NumRecords == old(writer.metaData.NumRecords) + 1 &&
+//@           writer.metaData.NullValues == old(writer.metaData.NullValues) + (isnil(value) ? 1 : 0)
+//@   ensures [success-min-key] r0 == nil ==> !isnil(writer.metaData.MinKey) &&
+//@           content(writer.metaData.MinKey) == (old(isnil(writer.lastKey)) ? old(content(key)) : old(content(writer.metaData.MinKey)))
+//@   ensures [success-bloom] r0 == nil && writer.opts.enableBloomFilter ==> bfAdds(writer.bloomFilter) == old(bfAdds(writer.bloomFilter)) + 1
+//@   call 0 of WriterI.Seek: assert [rollback-target] arg0 == preWriteOffset
+//@   modifies *
